@@ -94,6 +94,53 @@ def _rels(rels):
                       for i, t, tg, ext in rels) + "</Relationships>")
 
 
+# sibling relationships: what a real producer lists in a relationships part next to the relationship the image path uses
+REL_NAMESPACES = ["http://schemas.openxmlformats.org/officeDocument/2006/relationships",
+                  "http://purl.oclc.org/ooxml/officeDocument/relationships",
+                  "http://schemas.microsoft.com/office/2006/relationships",
+                  "http://schemas.microsoft.com/office/2007/relationships",
+                  "http://schemas.microsoft.com/office/2011/relationships",
+                  "http://schemas.microsoft.com/office/2017/10/relationships"]
+SIB_DIR = {"sheet": "xl/worksheets", "drawing": "xl/drawings", "slide": "ppt/slides", "pres": "ppt", "doc": "word"}
+SIB_STUB = {"vmlDrawing": '<xml xmlns:v="urn:schemas-microsoft-com:vml" xmlns:o="urn:schemas-microsoft-com:office:office"><v:shape id="_x0000_s1025" type="#_x0000_t202"/></xml>',
+            "comments": f'<comments xmlns="http://schemas.openxmlformats.org/spreadsheetml/2006/main"><authors><author>a</author></authors><commentList/></comments>'}
+
+
+def sib_type(e):
+    return REL_NAMESPACES[e.get("ns", 0)] + "/" + e["kind"]
+
+
+def sibs_of(spec, where, ui=None):
+    return [e for e in spec.get("opts", {}).get("sib", []) if e["where"] == where and (ui is None or e.get("unit") == ui)]
+
+
+def with_sibs(spec, where, ui, rels):
+    """(relationships of the part with the sibling relationships inserted at their positions, stub members to add)"""
+    rels = list(rels)
+    extra = []
+    for e in sibs_of(spec, where, ui):
+        rels.insert(min(e.get("at", 0), len(rels)), (e["id"], sib_type(e), e["target"], bool(e.get("ext"))))
+        if not e.get("ext") and e.get("stub"):
+            segs = [] if e["target"].startswith("/") else SIB_DIR[where].split("/")
+            for x in e["target"].split("/"):
+                if x == "..":
+                    segs = segs[:-1]
+                elif x not in ("", "."):
+                    segs.append(x)
+            extra.append(("/".join(segs), SIB_STUB.get(e["kind"], "<x/>")))
+    return rels, extra
+
+
+def _stub_members(spec, mem, stubs):
+    have = {n_ for n_, _ in mem} | set(spec["media"])
+    out = []
+    for n_, d in stubs:
+        if n_ and n_ not in have:
+            have.add(n_)
+            out.append((n_, d))
+    return out
+
+
 def _zip(members):
     b = io.BytesIO()
     with zipfile.ZipFile(b, "w", zipfile.ZIP_DEFLATED) as z:
@@ -136,7 +183,8 @@ def build_pptx(spec):
     mem = [("[Content_Types].xml", '<Types xmlns="http://schemas.openxmlformats.org/package/2006/content-types"/>')]
     mem.append(("ppt/presentation.xml", f"<p:presentation {PNS}><p:sldIdLst>" + "".join(
         f'<p:sldId id="{256 + i}" r:id="rId{i + 1}"/>' for i in range(n)) + "</p:sldIdLst></p:presentation>"))
-    mem.append(("ppt/_rels/presentation.xml.rels", _rels([(f"rId{i + 1}", SLIDE_T, f"slides/slide{pptx_slide_file(spec, i)}.xml", False) for i in range(n)])))
+    prels, stubs = with_sibs(spec, "pres", None, [(f"rId{i + 1}", SLIDE_T, f"slides/slide{pptx_slide_file(spec, i)}.xml", False) for i in range(n)])
+    mem.append(("ppt/_rels/presentation.xml.rels", _rels(prels)))
     slide_members = {}
     for ui, unit in enumerate(spec["units"]):
         sf = pptx_slide_file(spec, ui)
@@ -151,13 +199,15 @@ def build_pptx(spec):
             rels.append((rid, IMG_T, a["ref"], a["t"] == "external"))
         if spec.get("opts", {}).get("rels_reversed"):
             rels.reverse()
+        rels, st = with_sibs(spec, "slide", ui, rels)
+        stubs = stubs + st
         slide_members[sf] = [(f"ppt/slides/slide{sf}.xml", f"<p:sld {PNS}><p:cSld><p:spTree><p:sp><p:nvSpPr><p:cNvPr id=\"2\" name=\"T\"/><p:cNvSpPr/><p:nvPr/></p:nvSpPr>"
                     f"<p:spPr><a:xfrm><a:off x=\"0\" y=\"0\"/></a:xfrm></p:spPr><p:txBody><a:bodyPr/><a:p><a:r><a:t>slide {ui + 1}</a:t></a:r></a:p></p:txBody></p:sp>"
                     + "".join(shapes) + "</p:spTree></p:cSld></p:sld>"),
                              (f"ppt/slides/_rels/slide{sf}.xml.rels", _rels(rels))]
     for sf in sorted(slide_members):          # members in part-number order, as PowerPoint writes them
         mem.extend(slide_members[sf])
-    return _zip(mem + _media_members(spec))
+    return _zip(mem + _stub_members(spec, mem, stubs) + _media_members(spec))
 
 
 # ----------------------------------------------------------------------------- DOCX
@@ -196,11 +246,12 @@ def build_docx(spec):
                         f"</a:graphicData></a:graphic></wp:inline></w:drawing></w:r>")
         paras.append("<w:p>" + "".join(runs) + "</w:p>")
     rels = [("rId1", R_NS + "/styles", "styles.xml", False)] + rels
+    rels, stubs = with_sibs(spec, "doc", None, rels)
     ns = f'xmlns:w="{W_NS}" xmlns:r="{R_NS}" xmlns:wp="{WP_NS}" xmlns:a="{A_NS}" xmlns:pic="{PIC_NS}"'
     mem = [("[Content_Types].xml", '<Types xmlns="http://schemas.openxmlformats.org/package/2006/content-types"/>'),
            ("word/document.xml", f"<w:document {ns}><w:body>" + "".join(paras) + "<w:sectPr/></w:body></w:document>"),
            ("word/_rels/document.xml.rels", _rels(rels))]
-    return _zip(mem + _media_members(spec))
+    return _zip(mem + _stub_members(spec, mem, stubs) + _media_members(spec))
 
 
 # ----------------------------------------------------------------------------- XLSX
@@ -235,17 +286,21 @@ def build_xlsx(spec):
            ("xl/workbook.xml", f'<workbook xmlns="{S_NS}" xmlns:r="{R_NS}"><sheets>' + "".join(
                f'<sheet name="S{i + 1}" sheetId="{i + 1}" r:id="rId{i + 1}"/>' for i in range(n)) + "</sheets></workbook>"),
            ("xl/_rels/workbook.xml.rels", _rels([(f"rId{i + 1}", R_NS + "/worksheet", f"worksheets/sheet{files[i] + 1}.xml", False) for i in range(n)]))]
+    stubs = []
     for i, unit in enumerate(spec["units"]):
         f = files[i] + 1
         has = bool(unit)
         rows = "" if i in opts.get("empty_units", []) else f'<row r="1"><c r="A1" t="inlineStr"><is><t>sheet {i + 1}</t></is></c></row>'
         mem.append((f"xl/worksheets/sheet{f}.xml", f'<worksheet xmlns="{S_NS}" xmlns:r="{R_NS}"><sheetData>{rows}</sheetData>'
                     + ('<drawing r:id="rId1"/>' if has else "") + "</worksheet>"))
-        if not has:
-            continue
         dpath = f"xl/drawings/drawing{f}.xml"
         tgt = f"../drawings/drawing{f}.xml" if dref == "parent" else "/" + dpath
-        mem.append((f"xl/worksheets/_rels/sheet{f}.xml.rels", _rels([("rId1", R_NS + "/drawing", tgt, False)])))
+        srels, st = with_sibs(spec, "sheet", i, [("rId1", R_NS + "/drawing", tgt, False)] if has else [])
+        stubs.extend(st)
+        if srels:
+            mem.append((f"xl/worksheets/_rels/sheet{f}.xml.rels", _rels(srels)))
+        if not has:
+            continue
         anchors, rels = [], []
         for k, a in enumerate(unit):
             rid = f"rId{k + 1}"
@@ -262,8 +317,10 @@ def build_xlsx(spec):
             else:
                 anchors.append(f'<xdr:absoluteAnchor><xdr:pos x="0" y="0"/><xdr:ext cx="{a.get("cx", 952500)}" cy="{a.get("cy", 476250)}"/>{pic}</xdr:absoluteAnchor>')
         mem.append((dpath, f'<xdr:wsDr xmlns:xdr="{XDR_NS}" xmlns:a="{A_NS}" xmlns:r="{R_NS}">' + "".join(anchors) + "</xdr:wsDr>"))
+        rels, st = with_sibs(spec, "drawing", i, rels)
+        stubs.extend(st)
         mem.append((f"xl/drawings/_rels/drawing{f}.xml.rels", _rels(rels)))
-    return _zip(mem + _media_members(spec))
+    return _zip(mem + _stub_members(spec, mem, stubs) + _media_members(spec))
 
 
 # ----------------------------------------------------------------------------- ODF
